@@ -18,7 +18,8 @@
    run.  Granularity: steps are atomic; below that the criterion "no conflicting unordered
    accesses" is the Go memory model's own definition of a data race.
    Not proved: the registry lockset (storage.go mutexes) — exercised by the race build only. *)
-From CV Require Import Base.Str Gen.Sites Model.Common Model.Action Model.Batch Proofs.Batch.
+From CV Require Import Base.Str Gen.Sites Model.Common Model.Action Model.Batch Proofs.Batch Proofs.RegistrySites.
+From CV Require Model.Registry Proofs.Registry.
 
 Theorem C09_two_members : forall val sched (a b : list (step val)) m,
   Forall (respects val) a -> Forall (respects val) b -> conflict_free val a b ->
@@ -79,6 +80,27 @@ Theorem C09_goroutine_sites :
   forallb (fun s => Model.Action.in_strs s audited_go_sites) go_stmt_sites = true.
 Proof. vm_compute. reflexivity. Qed.
 Print Assumptions C09_goroutine_sites.
+
+(* the completion registry's lookup-or-create (storage.get), reached by the members of a Batch that
+   touch a command for the first time: any number of goroutines, any schedule — one entry *)
+Theorem C09_registry_single_entry : forall n sched i j e1 e2,
+  nth_error (Registry.pcs (Registry.run true sched (Registry.init n))) i = Some (Registry.Got e1) ->
+  nth_error (Registry.pcs (Registry.run true sched (Registry.init n))) j = Some (Registry.Got e2) ->
+  e1 = e2 /\ Registry.slot (Registry.run true sched (Registry.init n)) = Some e1.
+Proof. exact Proofs.Registry.registry_single_entry. Qed.
+Print Assumptions C09_registry_single_entry.
+
+Theorem C09_registry_unchecked_refuted : exists sched e1 e2,
+  nth_error (Registry.pcs (Registry.run false sched (Registry.init 2))) 0 = Some (Registry.Got e1) /\
+  nth_error (Registry.pcs (Registry.run false sched (Registry.init 2))) 1 = Some (Registry.Got e2) /\ e1 <> e2.
+Proof. exact Proofs.Registry.registry_unchecked_refuted. Qed.
+Print Assumptions C09_registry_unchecked_refuted.
+
+(* the statements of storage.get, regenerated from the source, are the ones the model was read off:
+   read under RLock; if missing: Lock, look again, create and store only if still missing *)
+Theorem C09_registry_sites : registry_sites = audited_registry_sites.
+Proof. vm_compute. reflexivity. Qed.
+Print Assumptions C09_registry_sites.
 
 (* non-vacuity: two members with disjoint footprints, every one of the 2^4 schedules *)
 Definition sA : list (step nat) := [mkStep [0] 1 (fun m => m 0 + 1); mkStep [1] 1 (fun m => m 1 * 2)].
